@@ -1,5 +1,5 @@
 """Named history generators used by campaign shards: name -> fn(machine, rng, job) -> (oplist, meta)."""
-from .drivers import history, funcs
+from .drivers import history, funcs, twins
 
 
 def gen_history(m, rng, job):
@@ -10,4 +10,4 @@ def gen_history(m, rng, job):
 
 GENERATORS = {'history': gen_history, 'render_family': history.gen_render_family, 'parse_input': history.gen_parse_input,
               'pgs': funcs.gen_pgs, 's2d': funcs.gen_s2d, 'pcs': funcs.gen_pcs, 'helper': funcs.gen_helper,
-              'aset': funcs.gen_aset, 'aset_extra': funcs.gen_aset_extra}
+              'twins': twins.gen_twins, 'aset': funcs.gen_aset, 'aset_extra': funcs.gen_aset_extra}
